@@ -78,6 +78,14 @@ def gen_cases(tier, seed):
                       "mesh": mesh if rng.integers(6) else float(rng.uniform(8, 20)), "shift": shift, "gamma": bool(rng.integers(2)), "tr": bool(rng.integers(4) != 0),
                       "iter": bool(rng.integers(4) == 0), "_cost": 4,
                       "nac": [None, "wang", "gonze"][rng.integers(3)] if name in ("rocksalt", "wurtzite", "zincblende", "rutile", "tric2") else None, "nseed": int(rng.integers(10 ** 6))})
+    # objects built with is_symmetry=False whose force constants are LESS symmetric than the bare positions (fitted from noisy forces, effective
+    # Hamiltonians, ...): the mesh may then only be reduced by what such an object still assumes (time reversal)
+    for b in range(6 if tier == "quick" else 40):
+        name = ["sc", "fcc", "rocksalt", "hcp", "rutile", "cscl", "bcc", "zincblende"][b % 8]
+        k = int(rng.integers(2, 5))
+        cases.append({"kind": "phonon", "crystal": {"name": name, "order": "asis", "order_seed": 0}, "mesh": [k, int(rng.integers(2, 5)), k] if b % 2 else [k, k, k],
+                      "shift": [None, [0.5, 0.5, 0.5], [0.5, 0, 0]][b % 3], "gamma": bool(b % 2), "tr": bool(b % 4 != 3), "iter": bool(b % 5 == 4), "_cost": 4, "nac": None, "nseed": 0,
+                      "nosym": True, "fcseed": int(rng.integers(10 ** 6))})
     # dense meshes on low-symmetry crystals: more than a thousand IRREDUCIBLE q-points with unequal weights (kernels that consume the weights in
     # blocks only show their block handling there)
     for b in range(3 if tier == "quick" else 16):
@@ -237,6 +245,8 @@ def run_case(c):
 
     # ---- phonon level
     case = {"crystal": c["crystal"], "smat": np.diag([2, 2, 2]).tolist()}
+    if c.get("nosym"):
+        case["is_symmetry"] = False
     ph, cd = setup.build_phonopy(case)
     if cd["pmat"] != "P":
         ph, cd = setup.build_phonopy(dict(case, pmat=cd["pmat"]))
@@ -244,6 +254,11 @@ def run_case(c):
         ph, cd = setup.build_phonopy(dict(case, smat=np.eye(3, dtype=int).tolist(), pmat=cd["pmat"] if cd["pmat"] != "P" else None))
     sc = ph.supercell
     fc = models.pair_fc(sc.cell, sc.scaled_positions, sc.symbols, cutoff=4.8)
+    if c.get("nosym"):
+        # periodic, permutation symmetric, obeying the sum rule - and WITHOUT the point symmetry of the positions
+        fc = fc + 0.3 * np.abs(fc).max() * models.random_periodic_fc(sc.cell, sc.scaled_positions, ph.primitive.cell, np.random.default_rng(c["fcseed"]), permutation_symmetric=True, asr=True) / max(
+            np.abs(models.random_periodic_fc(sc.cell, sc.scaled_positions, ph.primitive.cell, np.random.default_rng(c["fcseed"]), permutation_symmetric=True, asr=True)).max(), 1e-300)
+        obs["phonon_is_symmetry_false_less_symmetric_fc"] = 1
     if np.abs(fc).max() < 1e-8:
         return {"skip": "no interaction"}
     ph.force_constants = fc
